@@ -142,14 +142,61 @@ PROPS = {
         scope="float arithmetic/comparison/conversion arms of the VM",
         assumptions=[],
     ),
+    "C37": dict(
+        units=["u15_utils"], level="model_checking",
+        level_text=("utils/src/id_set.rs is copied from the working tree on every run (2 `use` lines redirected to an association-list map, rule R5) "
+                    "and model-checked with Kani/CBMC: for every equality pattern of histories of <=3 inserts (thorough: <=4 for insert) each operation "
+                    "(new, insert, try_get_id, get_id, index, contains, len, clear, iter, into_iter, clone) agrees with an insertion-ordered vector model and "
+                    "re-establishes the representation invariant (every interned pointer and map key points into this set's own buffers); after clone, dropping "
+                    "or clearing+reusing the original leaves the clone valid (CBMC dereference checks)."),
+        level_note=("Bounded: T=u8, concrete representative values per equality pattern, quick tier 3 patterns (iterators: one history). Assumed: std HashMap is a "
+                    "finite map (stub R5). Not covered: Stacked/Tree-Borrows aliasing (Miri's default Stacked Borrows rejects IdSet's pointer scheme; Tree Borrows "
+                    "accepts it), element types with Drop (only in the native Miri replay)."),
+        technique="bounded model checking (Kani/CBMC) of the real file against a vector model + native Miri replay on the real crate",
+        scope="IdSet<T>: ids, lookups, iteration order, clone independence",
+        assumptions=[]),
+    "C38": dict(
+        units=["u15_utils"], level="model_checking",
+        level_text=("utils/src/arena.rs and arena_ref.rs are copied byte-for-byte on every run; Kani/CBMC proves the one-step inductive contract "
+                    "{offset <= current_buf.len()} alloc::<T>(v) {pointer inside the current buffer, aligned as an address, at/after the old offset or in a fresh "
+                    "buffer with the old one retained in old_bufs, invariant re-established and offset past the block} for T in {u8,u16,u64,u128,[u8;3],[u8;24],[u64;5]} "
+                    "from an arbitrary state, with an allocator model that returns any permitted address; with_capacity/new establish the invariant."),
+        level_note=("Bounded: buffer length <=64, seven fixed T, old_bufs empty in the pre-state, addresses modulo 16. Allocator model is a stub of std::alloc::alloc. "
+                    "Uninitialised-memory and aliasing-model UB are not checked by CBMC (Miri replay covers concrete runs)."),
+        technique="one-step inductive bounded model checking (Kani/CBMC) on the real file + native Miri replay",
+        scope="Arena::alloc / with_capacity / new",
+        assumptions=[]),
+    "C06": dict(
+        units=["u6_gc"], level="model_checking",
+        level_text=("Executable invariant over the real VmGreenThread fields (tri-colour, roots, sweep closure, heap_size); inductive step {inv} op {inv} "
+                    "for every collector step (start_mark_phase, process_gray, sweep, maybe_gc), write_barrier, every allocating constructor and 18 mutator "
+                    "arms on the real vm.rs: exhaustive enumeration of every pre-state of bounded heap shapes run on the real code, plus Kani/CBMC on "
+                    "concrete-shape symbolic worlds and a multi-step scenario (pop during mark); collector steps free nothing reachable and change nothing "
+                    "the program can see. Because each obligation is an inductive step from an arbitrary invariant-satisfying state, histories and "
+                    "interleavings of collection work with program steps are unbounded; the heap SHAPE is bounded."),
+        level_note=("Bounded heap shape (<=2 objects quick / 3 thorough, <=2 fields, stack <=2-3). The inductive obligations are exhaustive bounded execution of "
+                    "the real code (CBMC could not afford an arbitrary symbolic heap: 13 min / died), labelled bounded. Channels, deep_copy/spawn not covered "
+                    "(C08/C09); step() dispatch and Call/Return arms not run; arms run under their typing preconditions."),
+        technique="inductive invariant; exhaustive bounded execution of the real collector + bounded model checking (Kani/CBMC)",
+        scope="maybe_gc, start_mark_phase, mark, process_gray, write_barrier, sweep, object constructors, heap-touching arms",
+        assumptions=[]),
+    "C07": dict(
+        units=["u6_gc"], level="model_checking",
+        level_text=("Drop for VmGreenThread releases every object once with its own layout and heap_size returns to 0 (CBMC double-free/layout/leak checks); "
+                    "the owner of static_strings releases what new_static leaked (CBMC memory-leak check); sweep makes progress (ranking function len - index)."),
+        level_note=("Second sentence of the property plus sweep progress only; the pacing claim (bounded heap for bounded live data, eventual reclamation) is a "
+                    "whole-history property and is not decided. Note: gc_debt is never reset, so increments are effectively whole phases."),
+        technique="Kani/CBMC with --memory-leak-check + exhaustive bounded execution",
+        scope="impl Drop for VmGreenThread, ObjectHeader::dealloc, StringObject::new_static / VmSharedReadonly, sweep",
+        assumptions=[]),
 }
 
 NOT_APPLICABLE = {
 
-    "C04": PENDING, "C05": PENDING, "C06": PENDING, "C07": PENDING, "C08": PENDING,
+    "C04": PENDING, "C05": PENDING, "C08": PENDING,
     "C09": PENDING, "C10": PENDING, "C11": PENDING, 
     "C29": PENDING, "C30": PENDING, 
-    "C32": PENDING, "C33": PENDING, "C37": PENDING, "C38": PENDING,
+    "C32": PENDING, "C33": PENDING, 
     "C02": "needs a semantics-preservation proof of translate_expr/translate_stmt (3 kLoC AST recursion over Rc/HashMap/StaticsContext); no function-level contract short of compiler correctness expresses it",
     "C03": "reachability of unwrap/unreachable!/unimplemented! in the translator from every typed AST: no function-level precondition on StaticsContext can be stated and discharged with Verus/Kani",
     "C12": "correctness of the Maranget usefulness recursion over Rc<EnumDef>/StaticsContext pattern matrices: inductive proof out of reach of both tools; leaf contracts (C13) do not decide it",
